@@ -120,6 +120,21 @@ def run(ctx):
     for d, t, _ in cases:
         sd = r.choice(pfam.DIALECTS)
         reqs.append(pfam.req_print(d, sd, t)); meta.append((d, sd, t))
+    # a construct only Hive (or only some dialects) can print, inside every HOST that prints its parts itself, for EVERY print dialect: a host that prints a
+    # part with a dialect of its own choosing (a default, a hard-coded one) lets the part through where the statement as a whole is printable
+    hosts = ["SELECT {X} FROM t", "SELECT f(1, {X}) FROM t", "SELECT CASE WHEN {X} > 1 THEN {X} ELSE {X} END FROM t", "SELECT CASE {X} WHEN 1 THEN 2 END FROM t",
+             "SELECT MAX(a) OVER (PARTITION BY {X} ORDER BY {X}) FROM t", "SELECT a FROM t WHERE {X} = 1 GROUP BY {X} HAVING {X} > 0 ORDER BY {X}",
+             "SELECT a FROM t JOIN u ON t.a = {X}", "SELECT a FROM (SELECT {X} AS a FROM t) q", "WITH w AS (SELECT {X} AS a FROM t) SELECT a FROM w",
+             "SELECT a FROM t WHERE a IN ({X}, 2) AND b BETWEEN {X} AND 9", "SELECT a FROM t WHERE EXISTS (SELECT 1 FROM u WHERE {X} = 1) UNION ALL SELECT {X} FROM v",
+             "SELECT c FROM t LATERAL VIEW explode({X}) v AS c", "SELECT c FROM t LATERAL VIEW OUTER explode(split({X}, ',')) v AS c, d WHERE c > 1",
+             "INSERT INTO r SELECT {X} FROM t", "INSERT INTO r VALUES ({X}, 1)", "UPDATE t SET a = {X} WHERE b = {X}", "DELETE FROM t WHERE {X} = 1", "SELECT CAST({X} AS CHAR), IF({X}, 1, 2) FROM t",
+             "SELECT a FROM t LIMIT 3", "SELECT a FROM t SORT BY {X}", "SELECT a FROM t DISTRIBUTE BY {X}", "INSERT OVERWRITE TABLE r PARTITION (dt = {X}) SELECT a FROM t"]
+    for h in hosts:
+        for x in ("arr[0]", "m['k']", "a % 2", "b"):
+            t = h.replace("{X}", x)
+            for sd in pfam.DIALECTS:
+                reqs.append(pfam.req_print("HIVE", sd, t)); meta.append(("HIVE", sd, t))
+    ctx.count("print:hosts-x-constructs-x-dialects", len(hosts) * 4 * len(pfam.DIALECTS))
     res, _ = ctx.corr(reqs, stream="print-pairs", nontrivial=lambda q, a: a.startswith("OK") and "S:" in a)
     parsed = E.run_impl([pfam.req_parse(d, t) for d, sd, t in meta])
     for (d, sd, t), (_, a, _), tree in zip(meta, res, parsed):
@@ -144,6 +159,12 @@ def run(ctx):
         elif must and not o.startswith("E:"):
             pfam.report(ctx, "emitted-unsupported:" + must[0], {"kind": "input", "entry": "source", "dialect": d, "print_dialect": sd, "input": t, "observed": o[:300],
                                                                 "oracle": "c13: %s is not available in %s: the printer must refuse" % (must, sd), "how_found": "stream print-pairs"})
+    for f in ctx.findings:
+        if f.get("status") == "finding" and "plain" in f.get("witness", {}):
+            w = f["witness"]
+            x = E.run_impl([pfam.req_parse(w["dialect"], w["input"]), pfam.req_parse(w["dialect"], w["plain"])])
+            if x[0] != x[1]:
+                ctx.report_known(f)
     for (d, a, b, depth) in pairs[:3]:
         ctx.sample({"dialect": d, "dialect_form": a[:200], "plain_form": b[:200], "depth": depth})
     pfam.conclude(ctx)
